@@ -22,9 +22,55 @@ class Collector:
                    'detail': 'harness error: ' + traceback.format_exc()[-1200:]}
         self.results.append(rec)
 
+    def run_parallel(self, specs, jobs=6):
+        """specs: list of (name, tag, fn, bound); each check runs in its own forked process."""
+        import multiprocessing as mp
+        ctx = mp.get_context('fork')
+        procs = []
+        for name, tag, fn, bound in specs:
+            parent, child = ctx.Pipe(duplex=False)
+
+            def target(conn=child, a=(name, tag, fn, bound)):
+                c = Collector()
+                c.run(a[0], a[1], a[2], bound=a[3])
+                conn.send(c.results)
+                conn.close()
+            pr = ctx.Process(target=target)
+            pr.start()
+            procs.append((name, tag, bound, pr, parent))
+        for name, tag, bound, pr, parent in procs:
+            try:
+                if parent.poll(3000):
+                    self.results.extend(parent.recv())
+                else:
+                    raise TimeoutError
+            except Exception as ex:  # noqa: BLE001
+                self.results.append({'name': name, 'tag': tag, 'ok': None, 'cases': 0, 'bound': bound,
+                                     'detail': f'harness error: no result from the check process ({ex!r})', 'witnesses': []})
+            pr.join(10)
+            if pr.is_alive():
+                pr.kill()
+
     def emit(self):
         print(json.dumps(self.results, default=str))
 
 
 def tier():
     return sys.argv[1] if len(sys.argv) > 1 else 'quick'
+
+
+XSI_TYPE = '{http://www.w3.org/2001/XMLSchema-instance}type'
+
+
+def xml_canon(node):
+    """Namespace-prefix independent structural form of an lxml element (C14N fails on the relative namespace URI the
+    library's default namespace map contains): (tag, sorted attributes, text, children); xsi:type values are resolved
+    to Clark notation; whitespace-only text and tails are ignored."""
+    attrs = []
+    for k, v in sorted(node.attrib.items()):
+        if k == XSI_TYPE and ':' in v:
+            pfx, local = v.split(':', 1)
+            v = '{%s}%s' % (node.nsmap.get(pfx), local)
+        attrs.append((k, v))
+    text = node.text if node.text is not None and node.text.strip() else ''
+    return (node.tag, tuple(attrs), text, tuple(xml_canon(c) for c in node if isinstance(c.tag, str)))
